@@ -18,6 +18,8 @@ pub mod console;
 pub mod node;
 pub mod config;
 pub mod seq;
+pub mod filestore;
+pub mod logfile;
 
 pub fn make(name: &str) -> Option<Box<dyn Suite>> {
     match name {
@@ -33,6 +35,8 @@ pub fn make(name: &str) -> Option<Box<dyn Suite>> {
         "console" => Some(Box::new(console::Console::new())),
         "config" => Some(Box::new(config::Config::new())),
         "seq" => Some(Box::new(seq::Seq::new())),
+        "logfile" => Some(Box::new(logfile::LogFile::new())),
+        "filestore" => Some(Box::new(filestore::FileStoreSuite::new())),
         _ => None,
     }
 }
